@@ -650,6 +650,7 @@ fn exec_history(zs: &[ZoneCfg], keys: &[KeyCfg], payload: u16, p: &[u64], steps:
             HStep::Q { src, udp, req, sign } => {
                 let tr = if *udp { Transport::Udp } else { Transport::Tcp };
                 let t0 = unix_now();
+                if let Some(s) = sign.as_ref() { if g_srvtsig::degenerate(req, s) { return None; } }
                 let signed = sign.as_ref().map(|s| g_srvtsig::sign_request(req, s, t0));
                 let wire: &[u8] = match &signed { Some(sg) => &sg.msg[..], None => &req[..] };
                 let rcode = match reference.handle_message(wire, ReceivedInfo::new(*src, tr), &mut buf[..]) {
